@@ -78,34 +78,36 @@ func VerifC18_AlertLimit() {
 	// another alert name lives in its own bucket
 	now := vfNow()
 	vfAssert("other-name-unaffected", h.a.Set(hAlert18("cold", 0, now, now.Add(time.Hour))) == nil)
-	// phase 2: time passes, maybe a GC
-	vfAdvance(vfSeconds("advance", 0, 7200))
-	if vfBool("gc") {
-		now = vfNow()
-		before := map[model.Fingerprint]*types.Alert{}
-		for fp, al := range h.a.alerts {
-			before[fp] = al
+	// 1 (quick) / 2 (thorough) rounds of: time passes, maybe a GC, an optional heartbeat
+	// of an admitted alert, then fresh alerts (new alerts are interchangeable, so their
+	// identities are fixed)
+	for round := 0; round <= vfTier(); round++ {
+		vfAdvance(vfSeconds("advance", 0, 7200))
+		if vfBool("gc") {
+			now = vfNow()
+			before := map[model.Fingerprint]*types.Alert{}
+			for fp, al := range h.a.alerts {
+				before[fp] = al
+			}
+			deleted := h.a.GC()
+			for _, d := range deleted {
+				vfAssert("gc-removes-only-resolved", !d.EndsAt.After(now))
+			}
+			for fp, al := range before {
+				_, ok := h.a.alerts[fp]
+				vfAssert("gc-keeps-unexpired", vfImplies(al.EndsAt.After(now), ok))
+			}
+			vfReach("gc")
 		}
-		deleted := h.a.GC()
-		for _, d := range deleted {
-			vfAssert("gc-removes-only-resolved", !d.EndsAt.After(now))
+		if vfBool("heartbeat") {
+			h.set(vfChoice("heartbeatOf", 1+vfTier()), vfSeconds("end", 1, 3600))
 		}
-		for fp, al := range before {
-			_, ok := h.a.alerts[fp]
-			vfAssert("gc-keeps-unexpired", vfImplies(al.EndsAt.After(now), ok))
+		extra := n
+		if round > 0 {
+			extra = 2
 		}
-		vfReach("gc")
-	}
-	// phase 3: an optional heartbeat of the first alert, then fresh alerts (new
-	// alerts are interchangeable, so their identities are fixed)
-	if vfBool("heartbeat") {
-		h.set(0, vfSeconds("end", 1, 3600))
-	}
-	extra := n
-	if vfTier() > 0 {
-		extra = n + 1
-	}
-	for j := 0; j < extra; j++ {
-		h.set(10+j, vfSeconds("end", 1, 3600))
+		for j := 0; j < extra; j++ {
+			h.set(10+10*round+j, vfSeconds("end", 1, 3600))
+		}
 	}
 }
